@@ -114,7 +114,7 @@ fn manifest_jsonml(v: &JSONMLValue, buf: &mut String, opts: &XmlJsonmlFormat) ->
 				} else {
 					ToStringFormat.manifest(value)?
 				};
-				escape_string_xml_buf(&value, buf);
+				escape_attribute_xml_buf(&value, buf);
 				buf.push('"');
 			}
 			if !has_children && !opts.force_closing {
@@ -137,6 +137,23 @@ fn manifest_jsonml(v: &JSONMLValue, buf: &mut String, opts: &XmlJsonmlFormat) ->
 			Ok(())
 		}
 	}
+}
+
+/// Attribute values go through attribute-value normalization when they are read: a literal tab, line feed or
+/// carriage return comes back as a space, so these are written as character references.
+fn escape_attribute_xml_buf(str: &str, out: &mut String) {
+	let mut rest = str;
+	while let Some(position) = rest.bytes().position(|c| matches!(c, b'\t' | b'\n' | b'\r')) {
+		let (plain, rem) = rest.split_at(position);
+		escape_string_xml_buf(plain, out);
+		out.push_str(match rem.as_bytes()[0] {
+			b'\t' => "&#9;",
+			b'\n' => "&#10;",
+			_ => "&#13;",
+		});
+		rest = &rem[1..];
+	}
+	escape_string_xml_buf(rest, out);
 }
 
 pub fn escape_string_xml(str: &str) -> String {
